@@ -85,6 +85,7 @@ type Monitors struct {
 
 	oracles []oracle
 	final   *finalOracle
+	opsDone int
 }
 
 type promotion struct {
